@@ -417,10 +417,16 @@ package zygo
 //@ stable C08 Zlisp | sandboxed | NewZlispSandbox, (*Zlisp).Clone, (*Zlisp).Duplicate
 //@ func (*Zlisp).Duplicate
 //@ C08 ensures inherits-sandbox: r0.sandboxed == old(env.sandboxed)
+//@ C08 ensures family: familyAgree(r0, sandboxed)
 //@ func (*Zlisp).Clone
 //@ C08 ensures inherits-sandbox: r0.sandboxed == old(env.sandboxed)
+//@ C08 ensures family: familyAgree(r0, sandboxed)
+// Every interpreter another interpreter holds a pointer to (whatever field a
+// future change may add) carries the same sandbox flag: code run on behalf of a
+// sandboxed interpreter runs in a sandboxed interpreter.
 //@ func NewZlispSandbox
 //@ C08 ensures sandboxed: r0.sandboxed
+//@ C08 ensures family: familyAgree(r0, sandboxed)
 // The two places that can reach the world do so only in a non-sandboxed interpreter.
 //@ effects C08 guarded (*Generator).GenerateInclude unless gen.env.sandboxed
 //@ effects C08 guarded (*Zlisp).ImportPackageBuilder unless env.sandboxed
